@@ -176,6 +176,9 @@ fn best_diff(ws: &[i64]) -> Option<i64> {
 }
 
 pub fn run_op(ctx: &mut Ctx, op: &str) {
+    if ctx.hang_limit_reached() {
+        return;
+    }
     let Some((tol, ws, p0)) = parse_op(op) else {
         ctx.record(op.to_string(), "bad-op".into(), false);
         return;
